@@ -79,13 +79,53 @@ class Run:
         if spec.get("tags"):
             cmd += ["-tags", spec["tags"]]
         cmd += extra or []
+        # result cache keyed on the exact inputs (govc binary, contract files, every Go file of the loaded module dir)
+        key = self.govc_cache_key(govc, spec, cmd)
+        cpath = os.path.join(VERIF, ".cache", "govc", key + ".json")
+        if os.path.exists(cpath) and not os.environ.get("VERIF_NO_CACHE"):
+            rep = json.load(open(cpath))
+            rep["cached"] = True
+            return rep
         rc, o = sh(cmd, cwd=self.subst(spec["dir"]), timeout=3600)
         if rc == 2 or not os.path.exists(out):
             raise EngineError("govc failed:\n" + o[-4000:])
         rep = json.load(open(out))
         rep["cmd"] = " ".join(cmd)
         rep["console"] = o
+        os.makedirs(os.path.dirname(cpath), exist_ok=True)
+        json.dump(rep, open(cpath, "w"))
+        rep["cmd"] = " ".join(cmd)
+        rep["console"] = o
         return rep
+
+    def govc_cache_key(self, govc, spec, cmd):
+        h = hashlib.sha256()
+        h.update(open(govc, "rb").read())
+        d = self.subst(spec["dir"])
+        args = [a.replace(self.work, "{work}") for a in cmd if not a.endswith(".json")]
+        h.update(" ".join(args).encode())
+        for c in spec["contracts"]:
+            h.update(open(self.subst(c), "rb").read())
+        files = []
+        for pk in spec["pkgs"]:
+            root = os.path.join(d, pk)
+            for dp, dn, fn in os.walk(d if d != self.repo else root):
+                if "/.git" in dp or "/example" in dp:
+                    continue
+                for f in fn:
+                    if f.endswith(".go") or f == "go.mod":
+                        files.append(os.path.join(dp, f))
+        if d == self.repo:
+            # generator packages import each other: hash the whole internal/ tree and main.go
+            for dp, dn, fn in os.walk(os.path.join(d, "internal")):
+                for f in fn:
+                    if f.endswith(".go"):
+                        files.append(os.path.join(dp, f))
+            files.append(os.path.join(d, "main.go"))
+        for f in sorted(set(files)):
+            h.update(f.replace(self.work, "{work}").replace(self.repo, "{repo}").encode())
+            h.update(open(f, "rb").read())
+        return h.hexdigest()[:24]
 
     # ---------------------------------------------------------------- bounded stand-ins through the real code
     def run_gen_test(self, spec, env_extra, timeout=900):
